@@ -102,7 +102,9 @@ def run_spec(pid, spec):
     res["ops"] = res.get("ops", w.n_ops)
     res["steps"] = w.total_steps
     res["virtual_seconds"] = w.virtual_seconds
-    res["digest"] = h(json.dumps(res.get("events", []), sort_keys=True, default=str))
+    res["digest"] = h(json.dumps([res.get("events", []), res["steps"], res["ops"], res["faults"], res["probes"],
+                                  res.get("states", []), (res.get("violation") or {}).get("msg")],
+                                 sort_keys=True, default=str))
     return res
 
 
@@ -277,8 +279,29 @@ def run_batch(pid, tier, base_seed, n_runs, workers, n_fixed, keep=6, chunk_time
 SWEEP_CAP = {"quick": 6000, "thorough": 20000}
 
 
+def sweep_stale_scratch():
+    """Remove scratch disks left behind by workers that were killed (their pid is gone)."""
+    import shutil
+    for base in ("/dev/shm", "/tmp"):
+        try:
+            names = os.listdir(base)
+        except OSError:
+            continue
+        for n in names:
+            if not n.startswith(("cr-sim-", "cr-mutant-", "cr-benign-", "cr-intake-")):
+                continue
+            parts = n.split("-")
+            try:
+                pid_ = int(parts[2])
+            except (IndexError, ValueError):
+                continue        # mkdtemp names carry no pid: left to their owners
+            if not os.path.exists("/proc/%d" % pid_):
+                shutil.rmtree(os.path.join(base, n), ignore_errors=True)
+
+
 def check(pid, tier, seed=None, runs=None, workers=None, write_evidence=True, quiet=False):
     t0 = time.time()
+    sweep_stale_scratch()
     if seed is None:
         seed = int(os.environ.get("VERIF_SEED", "20261004") or 0)
     workers = workers or int(os.environ.get("VERIF_WORKERS", "0") or 0) or min(16, os.cpu_count() or 4)
